@@ -60,6 +60,137 @@ fn gen_cyclic_world(rng: &mut Rng) -> World {
     World::from_text(&text, classes, aliases)
 }
 
+fn world_pairs(w: &World) -> Vec<(LuaType, LuaType)> {
+    let names: Vec<String> = w.classes.iter().chain(w.aliases.iter()).cloned().collect();
+    let mk = |n: &str| LuaType::Ref(LuaTypeDeclId::global(n));
+    let mut pairs: Vec<(LuaType, LuaType)> = Vec::new();
+    for a in &names {
+        for b in &names {
+            pairs.push((mk(a), mk(b)));
+        }
+        pairs.push((mk(a), LuaType::String));
+        pairs.push((LuaType::String, mk(a)));
+        pairs.push((LuaType::Integer, mk(a)));
+        pairs.push((mk(a), LuaType::Table));
+    }
+    pairs
+}
+
+/// child mode: `vh-types C12-world-child --replay <world.json> --out <progress file>`:
+/// `check_type_compact` on every pair of the world, one progress line per pair
+pub fn world_child(args: &Args) {
+    let v: Value = serde_json::from_str(&std::fs::read_to_string(args.replay.as_ref().expect("world")).expect("read")).expect("json");
+    let strs = |k: &str| -> Vec<String> { v[k].as_array().map(|a| a.iter().filter_map(|x| x.as_str().map(|s| s.to_string())).collect()).unwrap_or_default() };
+    let w = World::from_text(v["decls"].as_str().unwrap_or(""), strs("classes"), strs("aliases"));
+    let mut out = std::fs::File::create(&args.out).expect("out");
+    writeln!(out, "env {}", w.env.as_ref().map(|e| hex(e)).unwrap_or_else(|| "none".into())).ok();
+    for (i, (s, c)) in world_pairs(&w).iter().enumerate() {
+        writeln!(out, "start {i}").ok();
+        out.flush().ok();
+        let t0 = Instant::now();
+        let r = real_check(&w, s, c);
+        writeln!(out, "done {i} {} {}", hex(&r), t0.elapsed().as_micros()).ok();
+        out.flush().ok();
+    }
+}
+
+/// the alias reference graph of the declaration text has a cycle (predicate of finding
+/// C12-cyclic-alias-blowup)
+fn alias_cycle(decls: &str) -> bool {
+    let mut edges: Vec<(String, Vec<String>)> = Vec::new();
+    for line in decls.lines() {
+        if let Some(rest) = line.strip_prefix("---@alias ") {
+            let mut it = rest.splitn(2, ' ');
+            let name = it.next().unwrap_or("").to_string();
+            let body = it.next().unwrap_or("");
+            let mut refs = Vec::new();
+            let mut cur = String::new();
+            for ch in body.chars().chain(std::iter::once(' ')) {
+                if ch.is_alphanumeric() || ch == '_' {
+                    cur.push(ch);
+                } else {
+                    if !cur.is_empty() {
+                        refs.push(std::mem::take(&mut cur));
+                    }
+                }
+            }
+            edges.push((name, refs));
+        }
+    }
+    for (start, _) in &edges {
+        let mut stack = vec![start.clone()];
+        let mut vis: HashSet<String> = HashSet::new();
+        while let Some(cur) = stack.pop() {
+            if let Some((_, rs)) = edges.iter().find(|(n, _)| *n == cur) {
+                for r in rs {
+                    if r == start {
+                        return true;
+                    }
+                    if vis.insert(r.clone()) {
+                        stack.push(r.clone());
+                    }
+                }
+            }
+        }
+    }
+    false
+}
+
+/// run the pairs of one world in a child; `None` for a pair = no answer within the budget
+fn run_world(w: &World, budget: Duration, tag: &str) -> (Option<String>, Vec<Option<(String, u128)>>) {
+    let n = world_pairs(w).len();
+    let dir = "/verif/.work";
+    let wpath = format!("{dir}/C12_world_{tag}.json");
+    let opath = format!("{dir}/C12_worldout_{tag}.txt");
+    std::fs::write(&wpath, serde_json::to_string(&json!({"decls": w.decl_text, "classes": w.classes, "aliases": w.aliases})).unwrap_or_default()).expect("write world");
+    let _ = std::fs::remove_file(&opath);
+    let exe = std::env::current_exe().expect("exe");
+    let mut child = std::process::Command::new(exe)
+        .args(["C12-world-child", "--replay", &wpath, "--out", &opath])
+        .stdout(std::process::Stdio::null())
+        .stderr(std::process::Stdio::null())
+        .spawn()
+        .expect("spawn child");
+    let mut last = (0usize, Instant::now());
+    loop {
+        match child.try_wait() {
+            Ok(Some(_)) => break,
+            Ok(None) => {}
+            Err(_) => break,
+        }
+        let done = std::fs::read_to_string(&opath).map(|s| s.lines().filter(|l| l.starts_with("done")).count()).unwrap_or(0);
+        if done > last.0 {
+            last = (done, Instant::now());
+        }
+        if last.1.elapsed() > budget {
+            let _ = child.kill();
+            let _ = child.wait();
+            break;
+        }
+        std::thread::sleep(Duration::from_millis(5));
+    }
+    let text = std::fs::read_to_string(&opath).unwrap_or_default();
+    let mut env = None;
+    let mut res: Vec<Option<(String, u128)>> = (0..n).map(|_| None).collect();
+    for line in text.lines() {
+        let ws: Vec<&str> = line.split(' ').collect();
+        match ws.as_slice() {
+            ["env", e] if *e != "none" => env = vh_common::unhex(e),
+            ["done", i, r, us] => {
+                if let (Ok(i), Some(r)) = (i.parse::<usize>(), vh_common::unhex(r)) {
+                    if i < n {
+                        res[i] = Some((r, us.parse().unwrap_or(0)));
+                    }
+                }
+            }
+            _ => {}
+        }
+    }
+    let _ = std::fs::remove_file(&wpath);
+    let _ = std::fs::remove_file(&opath);
+    (env, res)
+}
+
 // ───────────────────────── program generator (oracle) ─────────────────────────
 
 const FRAGMENTS: &[&str] = &[
@@ -328,33 +459,38 @@ pub fn run(args: &Args, report: &mut Report) {
         };
         report.count("cyclic_worlds");
         let envh = hex(&env);
-        let names: Vec<String> = w.classes.iter().chain(w.aliases.iter()).cloned().collect();
-        let mk = |n: &str| LuaType::Ref(LuaTypeDeclId::global(n));
-        let mut pairs: Vec<(LuaType, LuaType)> = Vec::new();
-        for a in &names {
-            for b in &names {
-                pairs.push((mk(a), mk(b)));
-            }
-            pairs.push((mk(a), LuaType::String));
-            pairs.push((LuaType::String, mk(a)));
-            pairs.push((LuaType::Integer, mk(a)));
-            pairs.push((mk(a), LuaType::Table));
-        }
-        for (s, c) in pairs {
+        let pairs = world_pairs(&w);
+        let tag = format!("{}", std::process::id());
+        let (_, results) = run_world(&w, Duration::from_secs(5), &tag);
+        let mut hung_reported = false;
+        for ((s, c), r) in pairs.iter().zip(results.iter()) {
             report.evaluations += 1;
-            let real = real_check(&w, &s, &c);
+            let input = json!({"decls": w.decl_text, "source": ser(s, true).ok(), "compact": ser(c, true).ok(), "op": "check"});
+            let Some((real, micros)) = r else {
+                report.count("guard_check_no_answer_in_budget");
+                if !hung_reported {
+                    hung_reported = true;
+                    let class = if alias_cycle(&w.decl_text) { Some("alias-cycle") } else { None };
+                    report.oracle_failure(json!({"input": input, "what": "check_type_compact gave no answer within 5 s (the level guard bounds the depth of the recursion, not the number of branches explored below it)", "class": class}));
+                }
+                continue;
+            };
             report.count(&format!("guard_check_{}", if real.starts_with("panic") { "panic" } else { real.as_str() }));
-            let input = json!({"decls": w.decl_text, "source": ser(&s, true).ok(), "compact": ser(&c, true).ok(), "op": "check"});
             if real.starts_with("panic") {
                 report.oracle_failure(json!({"input": input, "what": format!("check_type_compact panicked: {real}"), "class": null}));
                 continue;
             }
-            let (Ok(ss), Ok(cs)) = (ser(&s, true), ser(&c, true)) else { continue };
+            let (Ok(ss), Ok(cs)) = (ser(s, true), ser(c, true)) else { continue };
             if seen.insert(format!("{env}{ss}{cs}")) {
                 report.distinct_nontrivial += 1;
             }
+            // the model explores the same branches: only cases the implementation answers quickly are replayed on it
+            if *micros > 2_000 {
+                report.count("guard_case_too_slow_for_model");
+                continue;
+            }
             requests.push(format!("ty.check {envh} {} {}", hex(&ss), hex(&cs)));
-            pending.push((input, real));
+            pending.push((input, real.clone()));
         }
         if wi < 3 {
             report.sample(json!({"cyclic_world": w.decl_text}));
